@@ -70,9 +70,19 @@ static void out_digit(vout_t *o, bn_digit_t d) {
 
 /* Build operand: whole object junk, bn_init, value bytes placed by hand, digits set;
  * everything above `digits` keeps the junk pattern (or is MSan-poisoned). */
-static int setup_bn(bn_p bn, unsigned capbits, const uint8_t *val, size_t vlen, uint8_t pat) {
+static int setup_bn(bn_p bn, unsigned capbits, const uint8_t *val, size_t vlen, uint8_t pat, int digit_junk) {
 	size_t nd;
 	junk_fill(bn, sizeof(*bn), pat);
+	if (digit_junk) {
+		/* dead digits hold small / extreme DIGIT values (0, 1, 2, 3, all-ones): fast paths that
+		 * switch on a digit of a number that has no such digit then take a wrong turn */
+		static const uint8_t small[5] = { 1, 2, 3, 0, 0xff };
+		size_t i;
+		for (i = 0; i < BN_MAX_DIGITS; i++) {
+			uint8_t k = small[(pat + i) % 5];
+			bn->num[i] = (0xff == k) ? BN_MAX_DIGIT : (bn_digit_t)k;
+		}
+	}
 	if (0 != bn_init(bn, capbits))
 		return (1);
 	while (vlen > 0 && 0 == val[vlen - 1]) vlen--;
@@ -90,7 +100,7 @@ static int setup_bn(bn_p bn, unsigned capbits, const uint8_t *val, size_t vlen, 
 	return (0);
 }
 
-static void dump_bn(vout_t *o, bn_p bn, size_t pre_count, uint8_t pat) {
+static void dump_bn(vout_t *o, bn_p bn, size_t pre_count, const bn_t *snap) {
 	size_t d = bn->digits, c = bn->count, top;
 	size_t hi = (pre_count > c ? pre_count : c);
 	uint8_t fl = 0;
@@ -98,8 +108,7 @@ static void dump_bn(vout_t *o, bn_p bn, size_t pre_count, uint8_t pat) {
 	__msan_unpoison(bn, sizeof(*bn));
 #endif
 	if (hi > BN_MAX_DIGITS) hi = BN_MAX_DIGITS;
-	if (0 == junk_same(bn, (size_t)((uint8_t*)&bn->num[hi] - (uint8_t*)bn),
-	    (BN_MAX_DIGITS - hi) * BN_DIGIT_SIZE, pat))
+	if (hi < BN_MAX_DIGITS && 0 != memcmp(&bn->num[hi], &snap->num[hi], (BN_MAX_DIGITS - hi) * BN_DIGIT_SIZE))
 		fl |= 1; /* wrote above capacity */
 	vout_u32(o, (uint32_t)c);
 	vout_u32(o, (uint32_t)d);
@@ -130,10 +139,11 @@ static int parse_case(vin_t *in, bcase_t *c) {
 
 #define F_NULL_CARRY	1
 #define F_NULL_SIZERET	2
+#define F_DIGIT_JUNK	4	/* second run: dead digits hold 0/1/2/3/all-ones digit values */
 
 static void __attribute__((noinline))
-run_once(const bcase_t *c, uint8_t pat, vout_t *o) {
-	bn_t *B[MAXOPS];
+run_once(const bcase_t *c, uint8_t pat, int digit_junk, vout_t *o) {
+	bn_t *B[MAXOPS], *snap[MAXOPS];
 	bn_p P[MAXOPS];
 	size_t pre_count[MAXOPS];
 	size_t i;
@@ -144,10 +154,12 @@ run_once(const bcase_t *c, uint8_t pat, vout_t *o) {
 	size_t szret, *szptr, szret2;
 	vout_t ex = {0};
 
-	for (i = 0; i < MAXOPS; i++) { B[i] = NULL; P[i] = NULL; pre_count[i] = 0; }
+	for (i = 0; i < MAXOPS; i++) { B[i] = NULL; snap[i] = NULL; P[i] = NULL; pre_count[i] = 0; }
 	for (i = 0; i < c->nops; i++) {
 		B[i] = malloc(sizeof(bn_t));
-		setup_err |= setup_bn(B[i], c->cap[i], c->val[i], c->vlen[i], (uint8_t)(pat + 17 * i));
+		setup_err |= setup_bn(B[i], c->cap[i], c->val[i], c->vlen[i], (uint8_t)(pat + 17 * i), digit_junk);
+		snap[i] = malloc(sizeof(bn_t));
+		memcpy(snap[i], B[i], sizeof(bn_t));
 		pre_count[i] = B[i]->count;
 	}
 	for (i = 0; i < c->nslots; i++)
@@ -323,7 +335,7 @@ run_once(const bcase_t *c, uint8_t pat, vout_t *o) {
 #endif
 	vout_u8(o, c->nops);
 	for (i = 0; i < c->nops; i++)
-		dump_bn(o, B[i], pre_count[i], (uint8_t)(pat + 17 * i));
+		dump_bn(o, B[i], pre_count[i], snap[i]);
 	/* carry: 16 bytes + flag "still the junk pattern" */
 	vout_u8(o, (uint8_t)junk_same(&carry, 0, sizeof(carry), pat));
 	out_digit(o, carry);
@@ -341,7 +353,7 @@ done:
 	free(ex.p);
 	if (obuf) vx_free(obuf, obuf_n);
 	if (ibuf) vx_free(ibuf, ibuf_n);
-	for (i = 0; i < c->nops; i++) free(B[i]);
+	for (i = 0; i < c->nops; i++) { free(B[i]); free(snap[i]); }
 }
 
 /* ------------------------------------------------------------------------- */
@@ -560,9 +572,9 @@ int main(int argc, char **argv) {
 			continue;
 		}
 		vout_u8(&o, 2);
-		run_once(&c, patA, &r);
+		run_once(&c, patA, 0, &r);
 		vout_blob(&o, r.p, r.n); r.n = 0;
-		run_once(&c, patB, &r);
+		run_once(&c, patB, (c.flags & F_DIGIT_JUNK) ? 1 : 0, &r);
 		vout_blob(&o, r.p, r.n); r.n = 0;
 		vout_flush(&o);
 		free(cs);
